@@ -462,6 +462,11 @@ func (rl *respDeserializer) getNextMap(pairs int) (value respMap, valid bool) {
 			return
 		}
 		k = respNormalizeKey(k)
+		if !k.isHashable() {
+			// an aggregate cannot be a map key or a set member here
+			valid = false
+			return
+		}
 		if v, valid = rl.getNextValue(); !valid {
 			return
 		}
@@ -481,6 +486,11 @@ func (rl *respDeserializer) getNextAttributeMap(pairs int) (value respAttributeM
 			return
 		}
 		k = respNormalizeKey(k)
+		if !k.isHashable() {
+			// an aggregate cannot be a map key or a set member here
+			valid = false
+			return
+		}
 		if v, valid = rl.getNextValue(); !valid {
 			return
 		}
@@ -500,6 +510,11 @@ func (rl *respDeserializer) getNextSet(count int) (value respSet, valid bool) {
 			return
 		}
 		v = respNormalizeKey(v)
+		if !v.isHashable() {
+			// an aggregate cannot be a map key or a set member here
+			valid = false
+			return
+		}
 		s[v] = struct{}{}
 	}
 
@@ -593,6 +608,11 @@ func (rl *respDeserializer) getNextDynamicMap() (value respMap, valid bool) {
 			return m, true
 		}
 		k = respNormalizeKey(k)
+		if !k.isHashable() {
+			// an aggregate cannot be a map key or a set member here
+			valid = false
+			return
+		}
 		if v, valid = rl.getNextValue(); !valid {
 			return
 		}
@@ -614,6 +634,11 @@ func (rl *respDeserializer) getNextDynamicAttributeMap() (value respAttributeMap
 		}
 
 		k = respNormalizeKey(k)
+		if !k.isHashable() {
+			// an aggregate cannot be a map key or a set member here
+			valid = false
+			return
+		}
 		if v, valid = rl.getNextValue(); !valid {
 			return
 		}
@@ -634,6 +659,11 @@ func (rl *respDeserializer) getNextDynamicSet() (value respSet, valid bool) {
 			return s, true
 		}
 		v = respNormalizeKey(v)
+		if !v.isHashable() {
+			// an aggregate cannot be a map key or a set member here
+			valid = false
+			return
+		}
 		s[v] = struct{}{}
 	}
 }
